@@ -27,6 +27,12 @@ def to_scenario(sid, hist):
         k += 1
         steps.append({"op": "tick", "d": d, "k": k})
         dates.append(d * 1000 + k)
+        if h["op"] == "roomupd" and h["p"] != "p1":
+            # an update made on another instance: that instance reads the room first, the defining instance reads the update afterwards
+            steps.append({"op": "pull", "p": h["p"], "q": "p1", "room": "R1"})
+            steps.append(dict(h))
+            steps.append({"op": "pull", "p": "p1", "q": h["p"], "room": "R1"})
+            continue
         steps.append(dict(h))
     paths()
     return {"sid": sid, "peers": ["p1", "p2", "p3"], "users": {"p1": "u1", "p2": "u2", "p3": "u3"}, "steps": steps, "hist": hist}
@@ -44,11 +50,28 @@ def run(ctx, replay):
         scen = []
         n = 0
         for (depth, num) in ([(5, 30), (9, 50)] if quick else [(5, 200), (9, 400), (13, 300)]):
-            hs = ctx.generate(D, "Gen_RoomHist", "CONSTANTS\n  MaxLen = %d\n  WithAttack = FALSE\nSPECIFICATION GSpec\nINVARIANT Emit\nCHECK_DEADLOCK FALSE\n" % depth,
+            hs = ctx.generate(D, "Gen_RoomHist", "CONSTANTS\n  MaxLen = %d\n  WithAttack = FALSE\n  SecondActor = TRUE\nSPECIFICATION GSpec\nINVARIANT Emit\nCHECK_DEADLOCK FALSE\n" % depth,
                               "hist_%d" % depth, workers=1, simulate="num=%d" % num, depth=depth, timeout=300, limit=num)
             for h in hs:
                 n += 1
                 scen.append(to_scenario(n, h))
+        # directed: an entry written by a second actor while it holds a role, read after it lost the role and after later changes
+        hs = ctx.generate(D, "Gen_RoomSigner", "SPECIFICATION Spec\nINVARIANT Emit\nCHECK_DEADLOCK FALSE\n", "signer", workers=1, timeout=600,
+                          limit=None)
+        if quick:
+            # all histories in which the actor loses its role while an importer holds an earlier version; a sample of the others
+            def core(h):
+                revoked = any(o["op"] == "roomupd" and o["p"] == "p1" and o["user"] == "u3" and not o["enabled"] for o in h)
+                ops = [o["op"] for o in h]
+                early = "cut" in ops and ops.index("cut") < max(i for i, o in enumerate(h) if o["op"] == "roomupd" and o["p"] == "p1" and o["user"] == "u3" and not o["enabled"]) if revoked else False
+                return revoked and early
+            import random
+            rnd = random.Random(ctx.seed)
+            rest = [h for h in hs if not core(h)]
+            hs = [h for h in hs if core(h)] + rnd.sample(rest, min(40, len(rest)))
+        for h in hs:
+            n += 1
+            scen.append(to_scenario(n, h))
     sp = ctx.write_scenarios(scen)
     tp = os.path.join(ctx.work, "trace.ndjson")
     ctx.dv_world(sp, tp)
